@@ -92,11 +92,13 @@ C = {
          "are bounded only; A-SLEEP (tasks scheduled during asyncio.sleep do not touch the local event object)"),
  "C11": ("the aging part, function-level core only: the loop of _clean_up_state that selects the flow instances to discard (block contract) selects - whatever "
          "the clock says - only instances of state.flow_states that are done (status stopped / finished, _is_done_flow under contract) and not "
-         "activated, and changes nothing; a waiting / starting / started / stopping or activated instance is never selected",
+         "activated, and changes nothing; a waiting / starting / started / stopping or activated instance is never selected; the body of the "
+         "removal loop (block contract REMOVE) takes exactly the selected entry out of state.flow_states - every other instance stays, as the same "
+         "object -, shortens the list of its flow id by one item and raises nothing",
          "save/restore at every cut point and simulated idle time on programs holding sets, nested containers, flow/action/event references: same outgoing events, "
          "shared references stay shared",
          "the clock (datetime.now, timedelta, their `-` and `>`) is arbitrary (A-OBJOP / A-OBJCMP); that discarding a done instance leaves every later reaction "
-         "unchanged, the removal loop, and the whole serialisation round trip (recursive encode_to_dict / decode_from_dict with the refs table: outside the "
+         "unchanged, the composition of the REMOVE steps over the removal loop (its precondition - the instance is listed under its flow id - is a state invariant checked by the C09 native side only), and the whole serialisation round trip (recursive encode_to_dict / decode_from_dict with the refs table: outside the "
          "engine's reach) are bounded only"),
  "C12": ("Colang 1.0 post-passes (heap mode, all inputs): _resolve_gotos turns every goto into a relative jump that lands exactly on the element that was its "
          "label and every label into a jump to the next element, keeps every offset inside the flow and leaves no goto/label; "
